@@ -1,11 +1,13 @@
 mod c01;
 mod c02;
+mod c05;
 mod c09;
 mod c10;
 mod c10conn;
 mod c18;
 mod genpkt;
 mod libconv;
+mod outbound;
 mod check;
 mod refmqtt;
 mod simnet;
@@ -29,11 +31,86 @@ fn main() {
             0
         }
         Some("selftest") => smoke::selftest(),
+        Some("bench") => { c05::bench(); 0 }
+        Some("trace") => {
+            // mc trace <ID> <tier> <cfg_index> <c1,c2,...>
+            let prop = args.get(2).cloned().unwrap_or_default();
+            let t = tier(args.get(3));
+            let idx: usize = args.get(4).and_then(|s| s.parse().ok()).unwrap_or(0);
+            let choices: Vec<u16> = args.get(5).map(|s| s.split(',').filter_map(|x| x.parse().ok()).collect()).unwrap_or_default();
+            let rec = match prop.as_str() {
+                "C05" | "C13" => c05::trace(&prop, t, idx, &choices, 20_000),
+                _ => {
+                    eprintln!("no trace support for {prop}");
+                    std::process::exit(2);
+                }
+            };
+            for l in &rec.log {
+                println!("{l}");
+            }
+            println!("events: {:?}", rec.labels);
+            println!("choices: {:?}", rec.choices);
+            println!("alts: {:?}", rec.points.iter().map(|p| (p.n_alts, p.running)).collect::<Vec<_>>());
+            println!("verdict: {:?}", rec.verdict);
+            0
+        }
+        Some("replay") => {
+            let path = args.get(2).cloned().unwrap_or_default();
+            let v: serde_json::Value = serde_json::from_str(&std::fs::read_to_string(&path).expect("read replay file")).expect("json");
+            let prop = v["property"].as_str().unwrap_or("").to_string();
+            let t = if v["tier"].as_str() == Some("thorough") { Tier::Thorough } else { Tier::Quick };
+            let r = &v["replay"];
+            println!("replaying {} ({}): clause={} witness={}", prop, v["tier"], v["clause"], v["witness"]);
+            if r["engine"].as_str() == Some("simnet") {
+                let idx = r["cfg_index"].as_u64().unwrap_or(0) as usize;
+                let choices: Vec<u16> = r["choices"].as_array().map(|a| a.iter().map(|x| x.as_u64().unwrap() as u16).collect()).unwrap_or_default();
+                let max_polls = r["max_polls"].as_u64().unwrap_or(20_000);
+                let rec = match prop.as_str() {
+                    "C05" | "C13" => c05::trace(&prop, t, idx, &choices, max_polls),
+                    _ => {
+                        eprintln!("no simnet replay for {prop}");
+                        std::process::exit(2);
+                    }
+                };
+                for l in &rec.log {
+                    println!("{l}");
+                }
+                println!("events: {:?}", rec.labels);
+                match &rec.verdict {
+                    Some(simnet::Verdict::Violation(vv)) => {
+                        println!("VIOLATION property={prop} replay={path}");
+                        println!("  clause={} witness={}\n  {}", vv.clause, vv.witness, vv.detail);
+                        1
+                    }
+                    other => {
+                        println!("no violation on replay: {other:?}");
+                        0
+                    }
+                }
+            } else {
+                let found = match r["check"].as_str() {
+                    Some("c18") => c18::replay(&r["input"]),
+                    Some("c02") => c02::replay(&r["input"]),
+                    _ => Vec::new(),
+                };
+                if found.is_empty() {
+                    println!("no violation on replay");
+                    0
+                } else {
+                    for f in &found {
+                        println!("VIOLATION property={prop} replay={path}\n  clause={} witness={}\n  {}", f.clause, f.witness, f.detail);
+                    }
+                    1
+                }
+            }
+        }
         Some("check") => {
             let t = tier(args.get(3));
             match args.get(2).map(|s| s.as_str()) {
                 Some("C01") => c01::run(t),
                 Some("C02") => c02::run(t),
+                Some("C05") => c05::run(t),
+                Some("C13") => c05::run_c13(t),
                 Some("C09") => c09::run(t),
                 Some("C10") => c10::run(t),
                 Some("C18") => c18::run(t),
